@@ -69,7 +69,17 @@ class MapContract(FunctionContract):
         return [("dispatched-on-node-class", self.node_test(self.expr))]
 
     names = dict(NODE_CLASSES, type=VFunc("type", m_type))
-    calls = {"self.rec": m_rec}
+
+    def m_rec_t(self, ctx, it, args, kw):
+        """self.rec(x) with the termination obligation of the recursion: x is strictly smaller than expr"""
+        x = ctx.deref(args[0])
+        if isinstance(x, VElem) and x.ty is NODE:
+            for f in A.unfold_size(self.expr):
+                ctx.assume(f)
+            ctx.oblige("recursion-on-a-strictly-smaller-node@L%s" % ctx.cur_line, A.nsize(x.t) < A.nsize(self.expr))
+        return m_rec(ctx, it, args, kw)
+
+    calls = property(lambda self: {"self.rec": self.m_rec_t})
 
     def type_of_literal(self, node):
         return NODELIST
@@ -82,6 +92,10 @@ class MapContract(FunctionContract):
         src = ctx.deref(it.eval(e.generators[0].iter))
         if not isinstance(src, VNodeList):
             raise Unsupported("map over %r" % (src,))
+        # termination of the recursion: every element of the list is smaller than expr (its size is at most lsize)
+        for f in A.unfold_size(self.expr):
+            ctx.assume(f)
+        ctx.oblige("recursion-on-strictly-smaller-nodes@L%s" % e.lineno, A.lsize(src.t) < A.nsize(self.expr))
         r = z3.Const(fresh_name("mapped"), NodeList)
         # L-MAP (lemma unit below): if tr(f x) == tr(x) for all x then trl(map f l) == trl(l), len equal
         ctx.assume(allk(lambda k: trlk(r, k) == trlk(src.t, k)))
@@ -161,8 +175,12 @@ class SimplifyBlock(MapContract):
         return [self.trace_inv(s)]
 
     loops = property(lambda self: {
-        0: dict(shape="while isinstance(current_child, NullASTNode)", inv=self.inv_a),
-        1: dict(shape="while children_queue", inv=self.inv_b),
+        # termination: the total size of the nodes still queued decreases (an inner Block is replaced by its
+        # children, which weigh one less)
+        0: dict(shape="while isinstance(current_child, NullASTNode)", inv=self.inv_a,
+                variant=lambda s: A.lsize(s.children_queue.t)),
+        1: dict(shape="while children_queue", inv=self.inv_b,
+                variant=lambda s: A.lsize(s.children_queue.t)),
     })
 
 
@@ -183,6 +201,8 @@ class PostCall(MapContract):
 
     def __init__(self):
         super().__init__("ASTPostSimplifyMapper.__call__", lambda n: z3.BoolVal(True))
+
+    calls = {"self.rec": m_rec}      # the entry point dispatches on the node itself (no recursion here)
 
     def params(self, ctx):
         ctx.env["self"] = VObj(TObj("Mapper", {}), {})
@@ -326,7 +346,10 @@ ASSUMPTIONS = [
     "conditions are the constants True/False, LogicalNot(c), or any other expression (an opaque atom with an arbitrary truth value sigma); structural equality of conditions",
     "trace semantics for a fixed valuation sigma of the atoms (flags are single-assignment: C10 clause d); ForLoop = opaque brackets around the body trace",
     "node classes are exactly the six classes of dag_ast.py; type(expr)(...) builds a node of expr's own class",
-    "termination of the simplifier's loops: variant proved for the not-stripping loop only; map_Block's queue loop termination is covered by the bounded stand-in",
+    "termination ('terminates without an error on every input'): variants are proved for the not-stripping loop of map_IfThenElse (depth of the condition) and for both "
+    "loops of map_Block (total size of the queued nodes: an inner Block is replaced by its children, which weigh one less); every recursive call self.rec(x) in the "
+    "map_* methods carries the obligation that x is strictly smaller than the node being mapped (size measure nsize / lsize, defined by structural recursion); "
+    "for loops over node lists are finite by construction",
 ]
 EXPLANATION = ("All map_* methods of the three simplification passes (and of ASTIdentityMapper, which they inherit from) plus simplify_ast "
                "are executed symbolically from dag_ast.py over a recursive ADT of trees. The executed-leaf trace is encoded in "
